@@ -23,7 +23,6 @@ import (
 
 	metallbv1beta1 "go.universe.tf/metallb/api/v1beta1"
 	metallbv1beta2 "go.universe.tf/metallb/api/v1beta2"
-	kit "go.universe.tf/metallb/internal/verifkit"
 	corev1 "k8s.io/api/core/v1"
 	metav1 "k8s.io/apimachinery/pkg/apis/meta/v1"
 )
@@ -355,7 +354,7 @@ func (d vDom) vCounts(bm []bool, s int) []int {
 func (d vDom) vRun(sc vScen) (o vObs) {
 	o = vObs{ID: sc.ID, In: sc.Snap, Pools: []vPoolObs{}, NodeIn: []vNodeIn{}}
 	var s vSnap
-	kit.Must(json.Unmarshal(sc.Snap, &s))
+	vMust(json.Unmarshal(sc.Snap, &s))
 	res := d.vResources(s)
 	defer func() {
 		if r := recover(); r != nil {
@@ -371,7 +370,7 @@ func (d vDom) vRun(sc vScen) (o vObs) {
 		return o
 	}
 	o.Ok = true
-	for _, name := range kit.SortedKeys(cfg.Pools.ByName) {
+	for _, name := range vPoolNames(cfg.Pools.ByName) {
 		p := cfg.Pools.ByName[name]
 		po := vPoolObs{Name: name, L2: []vL2Obs{}, Bgp: []vBgpObs{}, NCidr: len(p.CIDR)}
 		bm4 := make([]bool, 1<<uint(d.W+d.S4))
@@ -413,6 +412,23 @@ func (d vDom) vRun(sc vScen) (o vObs) {
 	return o
 }
 
+// (this package cannot import the shared verifkit: kit helpers of other families import packages
+// that import internal/config)
+func vMust(err error) {
+	if err != nil {
+		panic(fmt.Sprintf("verif: %v", err))
+	}
+}
+
+func vPoolNames(m map[string]*Pool) []string {
+	ks := make([]string, 0, len(m))
+	for k := range m {
+		ks = append(ks, k)
+	}
+	sort.Strings(ks)
+	return ks
+}
+
 func vClean(s string) string {
 	s = strings.Map(func(r rune) rune {
 		if r == '"' || r == '\\' || r < 32 || r > 126 {
@@ -429,10 +445,10 @@ func vClean(s string) string {
 func TestVerifConfigParse(t *testing.T) {
 	var d vDom
 	b, err := os.ReadFile(os.Getenv("VERIF_DOMAIN"))
-	kit.Must(err)
-	kit.Must(json.Unmarshal(b, &d))
+	vMust(err)
+	vMust(json.Unmarshal(b, &d))
 	f, err := os.Open(os.Getenv("VERIF_SCENARIOS"))
-	kit.Must(err)
+	vMust(err)
 	defer f.Close()
 	var scens []vScen
 	scn := bufio.NewScanner(f)
@@ -442,7 +458,7 @@ func TestVerifConfigParse(t *testing.T) {
 			continue
 		}
 		var sc vScen
-		kit.Must(json.Unmarshal(scn.Bytes(), &sc))
+		vMust(json.Unmarshal(scn.Bytes(), &sc))
 		scens = append(scens, sc)
 	}
 	out := make([]vObs, len(scens))
@@ -458,10 +474,16 @@ func TestVerifConfigParse(t *testing.T) {
 		}(w)
 	}
 	wg.Wait()
-	ow := kit.NewObsWriter()
+	of, err := os.Create(os.Getenv("VERIF_OBS"))
+	vMust(err)
+	ow := bufio.NewWriterSize(of, 1<<20)
 	for i := range out {
-		ow.Write(out[i])
+		b, err := json.Marshal(out[i])
+		vMust(err)
+		ow.Write(b)
+		ow.WriteByte('\n')
 	}
-	ow.Close()
+	vMust(ow.Flush())
+	vMust(of.Close())
 	t.Logf("config.For on %d snapshots", len(out))
 }
